@@ -1223,7 +1223,15 @@ func (e *Engine) binop(st *State, op token.Token, a, b Value, at, bt types.Type,
 				}
 				return BoolV{c.Not(eq)}
 			}
-			return BoolV{c.Fresh("streq", 0)}
+			// byte-backed strings of known length: by content (valueEq); else unconstrained
+			save := e.eqSt
+			e.eqSt = st
+			eq := e.valueEq(x, y)
+			e.eqSt = save
+			if op == token.EQL {
+				return BoolV{eq}
+			}
+			return BoolV{c.Not(eq)}
 		}
 	case StructV:
 		y, ok := b.(StructV)
